@@ -496,6 +496,7 @@ BYTESWAP_FMTS = {
     'none': (None, None), 'zero': (0, None), 'one': (1, [1]), 'two': (2, [2]), 'three': (3, [3]),
     'h': ('h', [2]), '>HB': ('>HB', [2, 1]), '2h': ('2h', [2, 2]), 'list12': ([1, 2], [1, 2]), 'tuple2': ((2,), [2]),
     'q': ('q', [8]), 'bB': ('bB', [1, 1]), 'empty-list': ([], []),
+    'l': ('l', [4]), '<L': ('<L', [4]), '2l': ('2l', [4, 4]), '@lB': ('@lB', [4, 1]), 'empty-tuple': ((), []),
     'iter12': (lambda: iter([1, 2]), [1, 2]), 'gen2': (lambda: (k for k in (2,)), [2]),     # one-shot iterables (made afresh on every path)
 }
 
@@ -561,6 +562,13 @@ def h_byteswap_bad(cname, n):
         r = call(lambda: s.byteswap('z'))
         if not K.check(r.raised(ValueError) and _unchanged(K, s, x, pos), 'unparsable format must raise ValueError', exc=r.excname):
             return False
+        r = call(lambda: s.byteswap(''))
+        if not K.check(r.raised(ValueError) and _unchanged(K, s, x, pos), 'an empty format string must raise ValueError (it is not the default)', exc=r.excname):
+            return False
+        for empty in ([], (), b''):
+            r = call(lambda: s.byteswap(empty))
+            if not K.check(r.ok and r.value == 0 and _unchanged(K, s, x, pos), 'an empty iterable of sizes swaps nothing and returns 0', exc=r.excname, fmt=repr(empty)):
+                return False
         r = call(lambda: s.byteswap([1, -1]))
         return K.check(r.raised(ValueError) and _unchanged(K, s, x, pos), 'negative size in iterable must raise ValueError', exc=r.excname)
     return h
@@ -735,13 +743,15 @@ def conditions(tier):
                                       dict(n=n, cls=c), timeout=T))
         bs_lens = [0, 8, 17] if q else [0, 7, 8, 16, 17, 24, 33, 40]
         for n in bs_lens:
-            for fk in (['none', 'one', 'two', '>HB', 'list12'] if q else list(BYTESWAP_FMTS)):
+            for fk in (['none', 'one', 'two', '>HB', 'list12', 'empty-list'] if q else list(BYTESWAP_FMTS)):
                 if fk == 'q' and n < 40:
                     continue
                 if q and n == 17 and fk in ('none', '>HB'):
                     continue
                 add(f'C03.byteswap[{c},n={n},fmt={fk}]', h_byteswap(c, n, fk, n + 1), f'all {n}-bit contents x start,end in [-{n + 1},{n + 1}] or None x repeat in {{False,True}}; fmt={fk if callable(BYTESWAP_FMTS[fk][0]) else repr(BYTESWAP_FMTS[fk][0])}', D_MISC, n=n, fmt=fk, cls=c)
         if q:
+            for fk in ('l', '2l'):
+                add(f'C03.byteswap[{c},n=72,fmt={fk},aligned-window]', h_byteswap(c, 72, fk, 73, True), f'all 72-bit contents x start,end multiples of 8 x repeat; fmt={fk!r} (standard size: 4 bytes)', D_MISC, n=72, cls=c)
             for fk in ('iter12', 'gen2'):
                 add(f'C03.byteswap[{c},n=24,fmt={fk},aligned-window]', h_byteswap(c, 24, fk, 25, True), f'all 24-bit contents x start,end multiples of 8 in [-24,24] or None x repeat; fmt={fk} (one-shot iterable)', D_MISC, n=24, cls=c)
             add(f'C03.byteswap[{c},n=24,fmt=two,aligned-window]', h_byteswap(c, 24, 'two', 25, True), 'all 24-bit contents x start,end multiples of 8 in [-24,24] or None x repeat; fmt=2', D_MISC, n=24, cls=c)
